@@ -226,6 +226,7 @@ class World:
 
         def solve(ex, state, state_prev, time_step, system, **kw):
             w.ev("projection_solver", state, state_prev, time_step)
+            w.__dict__.setdefault("solver_kwargs_seen", []).append(dict(kw))
             if system is not w.system:
                 ex.ctx.run.ob("integrators.ConstrainedLeapfrogIntegrator/solver-gets-own-system", core.FAILED, "pyvc",
                               detail="projection solver called with a different system object")
